@@ -124,7 +124,7 @@ def h_pbvi_cut(sk, nb, horizon):
             ghost['bv_before'] = [[L['bv'][b, i] for i in range(len(sl))] for b in range(nb)]
             state['phase'] = 'back'
             return ghost['k']
-        spec = CutSpec(inv=inv, havoc=havoc, element=element, exhausted=lambda L: S.eq(ghost['k'], horizon))
+        spec = CutSpec(inv=inv, havoc=havoc, element=element, exhausted=lambda L: S.eq(ghost['k'], horizon), iter_src='range(horizon)')
         f, text, info = cut(pb.point_based_value_iteration, {0: spec}, dump_dir=_dump())
         res = f(pomdp, bb, value_convergence_epsilon=eps, horizon=horizon)
         if state['phase'] == 'back':
@@ -361,7 +361,7 @@ def h_qmdp_action_value_U():
         S.assume(S.SymBool(ghost['kz'] < n))
         state['phase'] = 'back'
         return (Atom(key(ghost['kz'])), S.SymReal(val(ghost['kz'])))
-    spec = CutSpec(inv=inv, havoc=havoc, element=element, exhausted=lambda L: S.SymBool(ghost['kz'] == n))
+    spec = CutSpec(inv=inv, havoc=havoc, element=element, exhausted=lambda L: S.SymBool(ghost['kz'] == n), iter_src='zip(ss, probs)')
     fcut, text, info = cut(qm.QMDPPolicy.action_value, {0: spec}, dump_dir=os.path.join(ROOT, 'evidence', 'extracted'))
     r = fcut(policy, (Opaque('belief states'), Opaque('belief probabilities')), a)
     S.check('U:QMDPPolicy.action_value:is-the-belief-expectation-of-the-MDP-action-values(any-support-size)', S.eq(r, S.SymReal(Ssum(n))))
